@@ -118,7 +118,9 @@ type sys struct {
 	lastCRData       []byte // options of our most recent Configure-Request
 	acked            bool   // an Ack carrying lastCR was received after lastCR was sent
 	weAcked          bool   // our reply to the peer's most recent Configure-Request was an Ack
-	peerID           byte   // identifier counter of the simulated peer
+	peerID           byte   // identifier counter of the simulated peer (starts at 100: never collides with the automaton's own counter)
+	haveOrig         bool
+	lastOrig         byte   // identifier of the last packet the automaton ORIGINATED (Configure-/Terminate-Request, Code-/Protocol-Reject, Echo-Request), i.e. the last value of its own identifier counter seen on the wire
 	crRun, trRun     int    // Configure-/Terminate-Requests sent since the last event that was not a timeout
 	assigned         net.IP // address assigned to the session (nil = none)
 	scanned          int    // sent[:scanned] already processed by the monitors
@@ -130,7 +132,7 @@ type sys struct {
 }
 
 func newSys(c cfg) *sys {
-	s := &sys{c: c}
+	s := &sys{c: c, peerID: 100}
 	lg := zap.NewNop()
 	send := func(proto uint16, data []byte) {
 		p := pkt{}
@@ -333,6 +335,12 @@ func (s *sys) packetOps() []string {
 	if s.haveCR {
 		ops = append(ops, "RCA", "RCN", "RCJ")
 	}
+	if s.haveCR && s.haveOrig && s.lastOrig != s.lastCR {
+		// the automaton has consumed identifiers after its most recent request
+		// (Code-Reject, Terminate-Request, ...): an Ack/Nak/Reject naming the last
+		// identifier it put on the wire does NOT acknowledge that request
+		ops = append(ops, "RCA-lastsent", "RCN-lastsent", "RCJ-lastsent")
+	}
 	ops = append(ops, "RCA-stale", "RCN-stale", "RCJ-stale", "RTR", "RTA",
 		"CodeRej-critical", "CodeRej-noncritical", "ProtoRej-self", "ProtoRej-other",
 		"Echo0", "Echo3", "Echo4", "Echo8", "Unknown")
@@ -341,7 +349,7 @@ func (s *sys) packetOps() []string {
 
 // packetOpsAll: the packet alphabet of a state in which a request is outstanding.
 func (s *sys) packetOpsAll() []string {
-	s.haveCR = true
+	s.haveCR, s.haveOrig, s.lastOrig = true, true, s.lastCR+1
 	return s.packetOps()
 }
 
@@ -433,6 +441,15 @@ func (s *sys) mkEvent(op string) event {
 		e.packet = build(3, e.id, s.nakBody())
 	case op == "RCJ":
 		e.id, e.renego = s.lastCR, true
+		e.packet = build(4, e.id, s.rejBody())
+	case op == "RCA-lastsent":
+		e.id = s.lastOrig
+		e.packet = build(2, e.id, s.lastCRData)
+	case op == "RCN-lastsent":
+		e.id = s.lastOrig
+		e.packet = build(3, e.id, s.nakBody())
+	case op == "RCJ-lastsent":
+		e.id = s.lastOrig
 		e.packet = build(4, e.id, s.rejBody())
 	case op == "RCA-stale":
 		e.id = s.staleID()
@@ -592,6 +609,10 @@ func (s *sys) scan(e event, ps []pkt) {
 	cfgReplies := 0
 	for _, p := range ps {
 		switch p.code {
+		case 1, 5, 7, 8, 9:
+			s.lastOrig, s.haveOrig = p.id, true
+		}
+		switch p.code {
 		case 1: // our Configure-Request
 			if s.haveCR {
 				s.prevCR, s.havePrev = s.lastCR, true
@@ -675,7 +696,9 @@ func (s *sys) checkReply(e event, p pkt) {
 // Fields excluded from the fingerprint:
 //   identifier / lastIdentifier: only compared for equality with identifiers the
 //     harness derives from them (RCA = current, RCA-stale = any other); replaced
-//     by haveCR/havePrev. Sound below 256 packets per execution.
+//     by haveCR/havePrev and by "the last identifier the automaton put on the wire
+//     differs from that of its most recent Configure-Request" (all read off the
+//     sent frames). Sound below 256 packets per execution.
 //   failureCount (LCP): incremented on Configure-Nak, never read anywhere.
 var skipFields = map[string]bool{
 	"LCPStateMachine.identifier": true, "LCPStateMachine.lastIdentifier": true, "LCPStateMachine.failureCount": true,
@@ -690,7 +713,7 @@ func (s *sys) coarse() string {
 	if s.pool != nil {
 		p = fmt.Sprintf("pool(cur=%v,next=%d)", s.pool.cur, s.pool.allocs%2)
 	}
-	return fmt.Sprintf("%s|armed=%v|cr=%v,%v|acked=%v|weAcked=%v|assigned=%v|%s", d, s.timerArmed(), s.haveCR, s.havePrev, s.acked, s.weAcked, s.assigned != nil, p)
+	return fmt.Sprintf("%s|armed=%v|cr=%v,%v,%v|acked=%v|weAcked=%v|assigned=%v|%s", d, s.timerArmed(), s.haveCR, s.havePrev, s.haveOrig && s.haveCR && s.lastOrig != s.lastCR, s.acked, s.weAcked, s.assigned != nil, p)
 }
 
 func (s *sys) Fingerprint() string {
